@@ -434,7 +434,7 @@ func sweepC18(tier string, shard, shards int, emit func(C18Case)) {
 		}
 		// arithmetic: three operands over {MinInt64, MaxInt64, -1, 0, 1, 2}, exactly one of them a variable and
 		// the others literals (a partial fold of the constant operands must not change a wrapped-around result)
-		if opCategory(op) == "arith" {
+		if opCategory(op) == "arith" || m.Aliases[op] == "between" {
 			ip := []int64{math.MinInt64, math.MaxInt64, -1, 0, 1, 2}
 			for a := range ip {
 				for b := range ip {
@@ -475,7 +475,7 @@ func sweepC18(tier string, shard, shards int, emit func(C18Case)) {
 
 var propC18 = Prop[C18Case]{
 	ID:    "C18",
-	Rule:  "single-operator expressions (op a1..an) for every arithmetic/logic/comparison operator and alias, n = 0..6, operands from the int64 extremes / small ints / booleans / strings with a wrong-typed operand (string, bool, int, list, nil, float, set) at any position with probability 1/10 each, passed as literals and as variables, configs none/folding/fast/all. Oracles: independent operator model through R (and/or short-circuit), plus model-free laws on the engine (alias = named form, ne=!eq, le=!gt, ge=!lt, between = ge&&le, n-ary fold = nested binary fold, a-b = a+(-1*b), n-ary eq = pairwise). Sweep: exhaustive operator x count x pool^n for n<=3 (quick: 8-value pool; thorough: 12-value pool); arithmetic operators also over {MinInt64, MaxInt64, -1, 0, 1, 2}^3 with exactly one operand a variable. Also, for arithmetic, ordering and equality operators: the same operator called with no or one operand, nested as the first or the last operand, is an error under every subset tried (only and/or are documented to merge with nested calls of their kind). Non-trivial = an operand at an int64 extreme, a zero divisor at position >= 3, or an expected error (wrong count/type); distinct by expression + operands",
+	Rule:  "single-operator expressions (op a1..an) for every arithmetic/logic/comparison operator and alias, n = 0..6, operands from the int64 extremes / small ints / booleans / strings with a wrong-typed operand (string, bool, int, list, nil, float, set) at any position with probability 1/10 each, passed as literals and as variables, configs none/folding/fast/all. Oracles: independent operator model through R (and/or short-circuit), plus model-free laws on the engine (alias = named form, ne=!eq, le=!gt, ge=!lt, between = ge&&le, n-ary fold = nested binary fold, a-b = a+(-1*b), n-ary eq = pairwise). Sweep: exhaustive operator x count x pool^n for n<=3 (quick: 8-value pool; thorough: 12-value pool); arithmetic operators and between also over {MinInt64, MaxInt64, -1, 0, 1, 2}^3 with exactly one operand a variable. Also, for arithmetic, ordering and equality operators: the same operator called with no or one operand, nested as the first or the last operand, is an error under every subset tried (only and/or are documented to merge with nested calls of their kind). Non-trivial = an operand at an int64 extreme, a zero divisor at position >= 3, or an expected error (wrong count/type); distinct by expression + operands",
 	Gen:   genC18,
 	Check: checkC18,
 	Sweep: sweepC18,
